@@ -249,7 +249,8 @@ def with_generated(reqs, exp):
     gen = {"rd.add": "rdgen.add", "rd.rsub": "rdgen.rsub", "rd.mk": "rdgen.mk", "rd.expr": "rdgen.expr",
            "rd.bool": "rdgen.bool", "rd.hash": "rdgen.hash", "rd.eq": "rdgen.eq", "rd.diff": "rdgen.diff",
            "rd.diffn": "rdgen.diffn", "rd.diffo": "rdgen.diffo", "rd.muldy": "rdgen.muldy", "rd.divp2": "rdgen.divp2",
-           "rd.normalized": "rdgen.normalized"}
+           "rd.normalized": "rdgen.normalized", "rd.repr": "rdgen.repr", "rd.weeks": "rdgen.weeks",
+           "rd.setweeks": "rdgen.setweeks"}
     r2, e2 = list(reqs), list(exp)
     for q, e in zip(reqs, exp):
         op = q.split(" ", 1)[0]
@@ -610,6 +611,8 @@ def model_requests(d, x, probe):
         reqs.append("rd.expr R %s mul 3" % w); exp.append(run(lambda: d * 3, rd_wire))
     if abs(d.days) < 2 ** 53:
         reqs.append("rd.weeks " + w); exp.append("ok %d" % d.weeks)
+    if max(abs(getattr(d, k)) for k in REL) < 2 ** 53 and weekday_ok(d.weekday):
+        reqs.append("rd.repr " + w); exp.append(run(lambda: repr(d), vlib.hexs))
     if max(abs(getattr(d, k)) for k in REL) * 3 < 2 ** 53:
         reqs.append("rd.normalized " + w); exp.append(run(lambda: d.normalized(), rd_wire))
         reqs.append("rd.muldy %s 3 1" % w); exp.append(run(lambda: d * 1.5, rd_wire))
